@@ -8,7 +8,10 @@ archive's own `<prefix>/.cargo-ok`, and `C19_marker` / `C19_retry` hold for ever
 Property theorems only; helper lemmas live in Vet/Lemmas/Unpack.lean, UnpackSpec.lean, UnpackTop.lean
 (the two conversion lemmas below are here because `isLink` / `namesMarker` are defined here).
 `C19_complete_is_ok` as first stated is false for very deep source directories (fuel of `canon`):
-see Vet/Props/C19_todo.lean; `C19_complete_is_ok_partial2` adds `srcDir.length + 2 < 64`.
+see Vet/Props/C19_todo.lean; `C19_complete_is_ok_partial2` added `srcDir.length + 2 < 64`, and is
+false as well since the model knows that a directory cannot be opened for writing (an entry below
+`<prefix>/.cargo-ok` turns the marker path into a directory): `C19_complete_is_ok_partial3` adds
+"after unpacking, the marker path is not a directory".
 -/
 import Vet.Lemmas.Unpack
 import Vet.Lemmas.UnpackTop
@@ -74,17 +77,45 @@ theorem C19_retry_partial (fs : FS) (srcDir : Path) (prefix_ : Nat) (archive : L
   exact unpackPackage_congr0 srcDir prefix_ archive none
     (fs0_crashed_equiv fs srcDir prefix_ archive (kind_of_isLink hnl) hfs hcanon k) q
 
-/-- a complete unpack of such an archive is considered fetched (unless an entry was refused).
+/-- a complete unpack of such an archive is considered fetched (unless an entry was refused, or a
+directory sits at the marker path).
 The statement without `hlen` is false: `canon` runs on fuel 64 and `hcanon` only forces
 `srcDir.length < 64`, so for a source directory 62 or 63 components deep the marker path can not be
-resolved (see `Vet/Props/C19_todo.lean`). -/
+resolved (see `Vet/Props/C19_todo.lean`).
+The statement without `hnd` (the former `C19_complete_is_ok_partial2`, below in a comment) is false
+too: an entry below `<prefix>/.cargo-ok`, e.g. `<prefix>/.cargo-ok/x`, is not the archive's own
+marker entry, so it is unpacked, and `create_dir_all` on its parent makes the marker path a
+directory; opening that for writing fails (EISDIR, `writeThrough`), no marker is written and
+`fetch_is_ok` answers no.  `hnd` — after unpacking every entry the marker path is not a directory —
+is the weakest hypothesis that repairs it: `C19_complete_marker_dir_not_ok` is the converse. -/
+theorem C19_complete_is_ok_partial3 (fs : FS) (srcDir : Path) (prefix_ : Nat) (archive : List Entry)
+    (hnl : ∀ e ∈ archive, isLink e = false) (hfs : NoLinksUnder fs srcDir) (hsrc : lookup fs srcDir = some .dir) (hcanon : canon fs 64 [] srcDir = some srcDir)
+    (hlen : srcDir.length + 2 < 64)
+    (hall : (unpackEntries (set (removeTree fs (srcDir ++ [prefix_])) (srcDir ++ [prefix_]) .dir) srcDir prefix_ archive archive.length).2 = true)
+    (hnd : lookup (unpackEntries (set (removeTree fs (srcDir ++ [prefix_])) (srcDir ++ [prefix_]) .dir) srcDir prefix_ archive archive.length).1 (markerPath srcDir prefix_) ≠ some .dir) :
+    fetchIsOk (unpackPackage fs srcDir prefix_ archive none) srcDir prefix_ = true := by
+  have _ := hsrc  -- not needed: `hcanon` already makes `srcDir` present and link-free
+  exact fetchIsOk_complete fs srcDir prefix_ archive (kind_of_isLink hnl) hfs hcanon hlen hall hnd
+
+/-- `hnd` is necessary: with a directory at the marker path after the last entry, the complete
+unpack is not considered fetched (so every later fetch unpacks the crate again) -/
+theorem C19_complete_marker_dir_not_ok (fs : FS) (srcDir : Path) (prefix_ : Nat) (archive : List Entry)
+    (hnl : ∀ e ∈ archive, isLink e = false) (hfs : NoLinksUnder fs srcDir) (hcanon : canon fs 64 [] srcDir = some srcDir)
+    (hall : (unpackEntries (set (removeTree fs (srcDir ++ [prefix_])) (srcDir ++ [prefix_]) .dir) srcDir prefix_ archive archive.length).2 = true)
+    (hd : lookup (unpackEntries (set (removeTree fs (srcDir ++ [prefix_])) (srcDir ++ [prefix_]) .dir) srcDir prefix_ archive archive.length).1 (markerPath srcDir prefix_) = some .dir) :
+    fetchIsOk (unpackPackage fs srcDir prefix_ archive none) srcDir prefix_ = false :=
+  fetchIsOk_complete_dir fs srcDir prefix_ archive (kind_of_isLink hnl) hfs hcanon hall hd
+
+/- The former statement, FALSE since `writeThrough` models EISDIR (full refutation of this statement:
+`C19Todo.C19_complete_is_ok_partial2_false` in `Vet/Props/C19_todo.lean`; kernel-evaluated witness:
+`C19_complete_is_ok_partial2_counterexample` below):
+
 theorem C19_complete_is_ok_partial2 (fs : FS) (srcDir : Path) (prefix_ : Nat) (archive : List Entry)
     (hnl : ∀ e ∈ archive, isLink e = false) (hfs : NoLinksUnder fs srcDir) (hsrc : lookup fs srcDir = some .dir) (hcanon : canon fs 64 [] srcDir = some srcDir)
     (hlen : srcDir.length + 2 < 64)
     (hall : (unpackEntries (set (removeTree fs (srcDir ++ [prefix_])) (srcDir ++ [prefix_]) .dir) srcDir prefix_ archive archive.length).2 = true) :
-    fetchIsOk (unpackPackage fs srcDir prefix_ archive none) srcDir prefix_ = true := by
-  have _ := hsrc  -- not needed: `hcanon` already makes `srcDir` present and link-free
-  exact fetchIsOk_complete fs srcDir prefix_ archive (kind_of_isLink hnl) hfs hcanon hlen hall
+    fetchIsOk (unpackPackage fs srcDir prefix_ archive none) srcDir prefix_ = true
+-/
 
 /-- After the fix the completion-marker half of C19 holds for every link-free archive, whatever
 entry names it contains, including its own `.cargo-ok`: after an interruption at any point the
@@ -111,6 +142,26 @@ theorem C19_retry (fs : FS) (srcDir : Path) (prefix_ : Nat) (archive : List Entr
 /-! Known findings: witnesses (cache root `[9]`, source dir `[9, 5]`, crate 1, sibling crate 2). -/
 
 def cache0 : FS := [([9], .dir), ([9, 5], .dir), ([9, 5, 2], .dir), ([9, 5, 2, 7], .file 70), ([8], .dir), ([8, 3], .file 30)]
+
+theorem cache0_noLinks : NoLinksUnder cache0 [9, 5] := by
+  intro p n hmem _ t hn
+  subst hn
+  simp [cache0] at hmem
+
+/-- counterexample to the former `C19_complete_is_ok_partial2`: the archive's only entry is
+`<crate>/.cargo-ok/4`; it is link-free, every hypothesis of the former statement holds (the cache
+has no links: `cache0_noLinks`), every entry is processed, the marker path ends up a directory, the
+marker is not written and the completely unpacked crate is not considered fetched -/
+theorem C19_complete_is_ok_partial2_counterexample :
+    let archive : List Entry := [⟨[.normal 1, .normal 0, .normal 4], .file 40⟩]
+    (∀ e ∈ archive, isLink e = false) ∧
+    lookup cache0 [9, 5] = some .dir ∧ canon cache0 64 [] [9, 5] = some [9, 5] ∧
+    ([9, 5] : Path).length + 2 < 64 ∧
+    (unpackEntries (set (removeTree cache0 ([9, 5] ++ [1])) ([9, 5] ++ [1]) .dir) [9, 5] 1 archive archive.length).2 = true ∧
+    lookup (unpackPackage cache0 [9, 5] 1 archive none) [9, 5, 1, 0] = some .dir ∧
+    lookup (unpackPackage cache0 [9, 5] 1 archive none) [9, 5, 1, 0, 4] = some (.file 40) ∧
+    fetchIsOk (unpackPackage cache0 [9, 5] 1 archive none) [9, 5] 1 = false := by
+  decide +kernel
 
 /-- F7 (repaired by fix c2593c5): the archive carries `<crate>/.cargo-ok` with body "ok" and the
 unpack is cut off after that entry; the entry is skipped, so the next fetch does NOT believe the
